@@ -212,7 +212,7 @@ def _const(run, P):
     e = rec.params[1]
     tests = [n for n in ast.walk(rec.node) if isinstance(n, ast.If)]
     ok = bool(tests) and norm(tests[0].test) == f"_is_atomic({e}) or not self.is_constant[{e}]" \
-        and has(f"IdentityMapper.rec(self, {e})", tests[0].body[0])
+        and any(has(f"IdentityMapper.rec(self, {e})", s_) for s_ in tests[0].body)
     run.ob("C18.const", rec, tests[0] if tests else rec.node, ok,
            construct="rec: hoist only if not atomic and is_constant[expr]",
            why="hoisting a non-constant subexpression changes the value")
@@ -223,10 +223,16 @@ def _const(run, P):
         if isinstance(lp, ast.For) and norm(lp.iter) == f"{e}.children" \
                 and isinstance(lp.target, ast.Name):
             ch = lp.target.id
-            b_ = lp.body[0]
-            ok = isinstance(b_, ast.If) and norm(b_.test) == f"self.is_constant[{ch}]" \
-                and has(f"V_c.append({ch})", b_.body[0]) \
-                and has(f"V_n.append(self.rec({ch}))", b_.orelse[0])
+            for b_ in lp.body:
+                if isinstance(b_, ast.If) and norm(b_.test) == f"self.is_constant[{ch}]":
+                    cs = [m_ for s_ in b_.body for m_ in find(f"V_c.append({ch})", s_)]
+                    ns = [m_ for s_ in b_.orelse for m_ in find(f"V_n.append(self.rec({ch}))", s_)]
+                    # and neither list receives the child on the other branch
+                    wrong = [m_ for s_ in b_.orelse for m_ in find(f"V_c.append(ANY)", s_)
+                             if cs and m_[1]["V_c"] == cs[0][1]["V_c"]] + \
+                            [m_ for s_ in b_.body for m_ in find(f"V_n.append(ANY)", s_)
+                             if ns and m_[1]["V_n"] == ns[0][1]["V_n"]]
+                    ok = bool(cs) and bool(ns) and not wrong
     run.ob("C18.const", ca, ca.node, ok,
            construct="regrouping: children split by is_constant; non-constants are recursed",
            why="only constant children may be folded into the hoisted group")
@@ -286,13 +292,15 @@ def _pair(run, P):
     d = P.func(f"{MOD}.collapse_constants")
     loops = [x for x in ast.walk(d.node) if isinstance(x, ast.For)]
     ok = False
-    if len(loops) == 1 and isinstance(loops[0].target, ast.Tuple) and len(loops[0].body) == 1:
+    if len(loops) == 1 and isinstance(loops[0].target, ast.Tuple):
         lp = loops[0]
         a_, b_ = (dotted(t) for t in lp.target.elts)
         assign_func = d.params[2]
         r = first(f"V_new, V_map = V_m({d.params[0]}, {d.params[3]})", d.node)
         ok = r[0] is not None and norm(lp.iter) == f"{r[1]['V_map']}.items()" \
-            and norm(lp.body[0]) == f"{assign_func}({a_}, {b_})"
+            and sum(1 for s_ in lp.body for x in ast.walk(s_)
+                    if isinstance(x, ast.Call) and dotted(x.func) == assign_func) == 1 \
+            and any(norm(s_) == f"{assign_func}({a_}, {b_})" for s_ in lp.body)
     run.ob("C18.pair", d, loops[0] if loops else d.node, ok,
            construct="for variable, expr in <variable map>.items(): assign_func(variable, expr)",
            why="every new variable is assigned exactly once, with its own expression")
